@@ -59,9 +59,13 @@ BasicHeaders(pairs) ==
 
 Forms(pairs) == IF Len(pairs) = 1 THEN {"single", "array"} ELSE {"array"}
 BasicMounts(D)  == IF D THEN {"top", "nested"} ELSE {"top"}
+\* (the protected route has GET and POST handlers; HEAD is answered by the GET handler, OPTIONS by the framework's default handler --
+\*  the fang guards them like every other request: a smaller set of headers is sent with these two methods)
 BasicRowsOf(D, pl) ==
   {[mod |-> "basic", form |-> f, mount |-> m, method |-> (IF m = "nested" THEN "POST" ELSE "GET"), pairs |-> pl, hdr |-> h]
      : f \in Forms(pl), h \in BasicHeaders(pl), m \in (IF Len(pl) = 2 /\ D THEN {"top"} ELSE BasicMounts(D))}
+  \cup {[mod |-> "basic", form |-> f, mount |-> "top", method |-> mth, pairs |-> pl, hdr |-> h]
+     : f \in Forms(pl), mth \in {"OPTIONS", "HEAD"}, h \in {x \in BasicHeaders(pl) : x.kind \in {"basic", "missing", "bearer", "lower", "nonutf8_last"}}}
 
 BasicRowOK(r) == /\ NoColonInUsers(r.pairs)
                  /\ BasicRefines(r.pairs, r.hdr)
